@@ -26,9 +26,18 @@ fn source_trees() -> Vec<Vec<(String, Node)>> {
         .iter()
         .map(|s| s.to_string())
         .collect();
+    // sibling directories whose names are prefixes of each other (and sort next to each other),
+    // empty or with a file inside
+    let prefix_siblings: Vec<String> = ["/a", "/ab", "/a/x", "/ab/x", "/a.b"]
+        .iter()
+        .map(|s| s.to_string())
+        .collect();
     let w = contents();
-    trees_over(&paths, b"")
-        .into_iter()
+    let mut all = trees_over(&paths, b"");
+    all.extend(trees_over(&prefix_siblings, b"").into_iter().filter(|t| {
+        t.iter().any(|(p, n)| p == "/a" && matches!(n, Node::Dir)) && t.iter().any(|(p, n)| p == "/ab" && matches!(n, Node::Dir))
+    }));
+    all.into_iter()
         .map(|t| {
             let mut i = 0;
             let mut v = vec![("/s".to_string(), Node::Dir)];
